@@ -234,7 +234,7 @@ pub static C19: PropSpec = PropSpec {
     id: "C19",
     simulator: "A-sim",
     level: "exploration",
-    runs: |t| if t == Tier::Thorough { 300_000 } else { 15_000 },
+    runs: |t| if t == Tier::Thorough { 2_000_000 } else { 15_000 },
     enumerated: |_| 0,
     run,
     rule: "the real Loop::start with a period from {1 s .. 1 day} (below and above the 60 s initial back-off); 2-10 (thorough: 2-16) scripted connection attempts (succeed against FakeJunos / fail at connect / rpc-error or disconnect at a seeded request) with job durations 0 .. 3 periods of virtual time; 0-3 SIGHUPs and a final SIGINT or SIGTERM raised (libc::raise) at seeded virtual instants, while waiting and while a job runs. Oracle over the timeline of connection attempts and job ends: first run at once; after success one period; after the c-th consecutive failure a delay of 60 s first, never shrinking, growing while below the cap, never above max(60 s, period), never zero without SIGHUP; SIGHUP while waiting => run at that instant; SIGINT/SIGTERM while waiting => clean exit at that instant, no later attempt. Non-trivial = at least three attempts; distinct = distinct event-log hash",
